@@ -1,4 +1,5 @@
 import NeverModel.Model.Verify
+import NeverModel.Model.VerifyRun
 import NeverModel.Lemmas.VmFrameOps
 import NeverModel.Lemmas.HeapBasic
 import NeverModel.Lemmas.Index
@@ -70,17 +71,6 @@ theorem kipop_PUSH_PARAM (md : Module) (ins : Instr) (orc : Oracle) (h : ins.op 
   kip
 
 /-! ### MK_INIT_ARRAY -/
-
-/-- the integers the top `n` stack slots (from `sp` downwards) point at, top first: what `popInts n` reads -/
-def stackInts (vm : Vm) : Nat → Int → Option (List Int)
-  | 0, _ => some []
-  | n+1, sp =>
-    if sp < 0 ∨ sp ≥ vm.stackSize then none else
-    let a := (vm.stack[sp.toNat]?.getD .unknown).asAddr
-    if a > vm.gc.mem.size then none else
-    match vm.gc.mem.objAt a with
-    | some (.int v) => (stackInts vm n (sp - 1)).map (v.toInt :: ·)
-    | _ => none
 
 theorem stackInts_congr (vm vm2 : Vm) (h1 : vm2.stackSize = vm.stackSize) (h2 : vm2.stack = vm.stack) (h3 : vm2.gc = vm.gc) :
     ∀ (n : Nat) (s : Int), stackInts vm2 n s = stackInts vm n s := by
